@@ -177,7 +177,9 @@ def st_spec(draw, algo=None, known_exclusions=True):
     m = len(spec["Y"][0])
     if algo in ("PaVeBaPartialGP", "DecoupledGP"):
         if algo == "DecoupledGP" or draw(st.booleans()):
-            spec["costs"] = [draw(st.sampled_from([1.0, 0.5, 2.0, 3.0])) for _ in range(m)]
+            # costs as floats or as plain integers (np.array of them has an integer dtype)
+            fam = draw(st.sampled_from([[1.0, 0.5, 2.0, 3.0], [1.0, 0.5, 2.0, 3.0], [1, 2, 3]]))
+            spec["costs"] = [draw(st.sampled_from(fam)) for _ in range(m)]
             spec["budget"] = draw(st.sampled_from([3.0, 6.0, 10.0])) if algo == "DecoupledGP" else draw(st.sampled_from([None, 4.0, 12.0, 1000.0]))
     return spec
 
@@ -193,7 +195,8 @@ def st_spec_trained(draw):
     spec.pop("hyp", None)
     m = len(spec["Y"][0])
     if algo in ("PaVeBaPartialGP", "DecoupledGP"):
-        spec["costs"] = [draw(st.sampled_from([1.0, 0.5, 2.0])) for _ in range(m)]
+        fam = draw(st.sampled_from([[1.0, 0.5, 2.0], [1.0, 0.5, 2.0], [1, 2, 3]]))
+        spec["costs"] = [draw(st.sampled_from(fam)) for _ in range(m)]
         spec["budget"] = draw(st.sampled_from([3.0, 6.0])) if algo == "DecoupledGP" else draw(st.sampled_from([None, 5.0]))
     if algo in ("PaVeBaGP", "PaVeBaPartialGP") and ha.conf_type(spec) == "rect":
         W = gen_runs.cone_matrix(spec["cone"])
